@@ -295,6 +295,7 @@ def run(cr: CheckRun) -> None:
             cr.violation(f"Pairing:{impl}:{act}", f"{impl} core leaves the pairing model at action {k} ({act}): model {exp}, core {got}; behaviour {[a['a'] for a in beh]} from {beh[0]}",
                          {"kind": "pair", "impl": impl, "beh": beh})
     cr.cov["programs"] = nmeta + nrep
+    cr.cov["traces_validated_against_impl"] = nrep + nmeta     # model behaviours replayed on the cores + judged metadata/execution records
     cr.cov["evaluations"] = nmeta
     cr.cov["traces"] = nrep
     cr.cov["distinct_nontrivial"] = len(behs)
